@@ -165,7 +165,7 @@ _P["C05"] = {
 }
 
 _P["C04"] = {
-    "explanation": "Theorem C04_switch_values_parse_to_themselves (Properties/C04.v; Model/BuildSw.v, Proofs/ParseSwAllP.v .. ParseSwAll3P.v): for every switch-side value of 12 kinds (header-only replies, get-config reply, error, "
+    "explanation": "Theorem C04_switch_values_parse_to_themselves (Properties/C04.v; Model/BuildSw.v, Proofs/ParseSwAllP.v .. ParseSwAll3P.v, ParseSwHelloP.v): for every switch-side value of 13 kinds (hello with any list of version-bitmap and unknown elements, header-only replies, get-config reply, error, "
                    "experimenter error, port-status, features reply, flow-removed, packet-in, multipart replies desc / aggregate / flow with instructions, tlv-table reply) whose fields fit their widths the parser returns exactly the written value "
                    "from its specification encoding (packet-in relative to the packet decoder's reading of the payload); C04_refuted_echo_body (D37); C04_examples by computation. "
                    "Correspondence: spec-conformant switch messages from an independent Go encoder; the parsed fields compared with what was written; for cases with a recipe the model's conformant frame must equal the Go encoder's bytes "
